@@ -4,8 +4,20 @@ Driver ops for C07:
        each force: fx fy fz g0[0..n) g1[0..n) g2[0..n)   (forces separated by `;`)
        -> ok <size values>
   scatter <size> | <used indices> | <px values>   -> ok <size values>
+  bayfext <inc or none> | <num> <m> <n> # <skin forces> | <component> | <component> …
+       component:  b2n                      (BladeStiff2D without flange)
+                   b2 <part>                (BladeStiff2D: its flange)
+                   t <part> @ <part>        (TStiff2D: base @ flange)
+       part:       <size> # <forces> # <forces_inc>      (forces as for `fext`, rows of length <size>)
+       -> ok <tag:idx:off:size:nforces …> | <vector>      or   raise TypeError
+  asmfext <inc or none> | <num> <m> <n> # <forces> # <forces_inc> | …   (one field per panel, rows of length num*m*n)
+       -> ok <col_start:size …> | <get_size() values>
+  static <n> <last_analysis before> <exception of calc_fext or -> <exception of calc_k0 or -> | <k0 as triplets `i j v ; i j v ; …`, duplicates add> | <fext> | <px>
+       (`px`: the recorded answer of spsolve, used as the solver parameter)
+       -> ok <calls> | <used_cols> | <reduced matrix row-major> | <reduced rhs> | <increments> | <cs[0] or -> | <last_analysis> | <raised or ->
 -/
 import CompmechVerif.Model.Static
+import CompmechVerif.Model.BayLoads
 import CompmechVerif.Drv.Proto
 import Mathlib.Algebra.Field.Rat
 
@@ -16,6 +28,129 @@ def mkForce (n : Nat) (v : List ℚ) : Option (Force ℚ) :=
   if v.length = 3 + 3 * n then
     some ⟨fun a => v.getD a.val 0, fun a j => if j < n then v.getD (3 + a.val * n + j) 0 else 0⟩
   else none
+
+def hashes (s : String) : List String := (s.splitOn "#").map fun f => f.trimAscii.toString
+
+def parseForces? (n : Nat) (s : String) : Option (List (Force ℚ)) :=
+  match parseQss? s with
+  | some fs => fs.mapM (mkForce n)
+  | none => none
+
+/-- `<size> # <forces> # <forces_inc>` -/
+def parsePart? (s : String) : Option (PartLoads ℚ) :=
+  match hashes s with
+  | [n, fs, fi] =>
+    match n.toNat? with
+    | some n =>
+      match parseForces? n fs, parseForces? n fi with
+      | some fs, some fi => some ⟨n, fs, fi⟩
+      | _, _ => none
+    | none => none
+  | _ => none
+
+def parseInc? (s : String) : Option (Option ℚ) :=
+  if s = "none" then some none else (parseQ? s).map some
+
+def stripWord (kw s : String) : String := (s.drop kw.length).trimAscii.toString
+
+/-- folds the component fields into `(b2, ts)` -/
+def parseComps? : List String → Option (List (Option (PartLoads ℚ)) × List (PartLoads ℚ × PartLoads ℚ))
+  | [] => some ([], [])
+  | f :: t =>
+    match parseComps? t with
+    | none => none
+    | some (b2, ts) =>
+      if f = "b2n" then some (none :: b2, ts)
+      else if f.startsWith "b2 " then
+        match parsePart? (stripWord "b2 " f) with
+        | some p => some (some p :: b2, ts)
+        | none => none
+      else if f.startsWith "t " then
+        match (stripWord "t " f).splitOn "@" with
+        | [pb, pf] =>
+          match parsePart? pb, parsePart? pf with
+          | some pb, some pf => some (b2, (pb, pf) :: ts)
+          | _, _ => none
+        | _ => none
+      else none
+
+def showPlaced (e : Placed) : String := s!"{e.tag}:{e.idx}:{e.off}:{e.size}:{e.nforces}"
+
+def bayfext (rest : String) : String :=
+  match fields rest with
+  | inc :: skin :: comps =>
+    match parseInc? inc, hashes skin, parseComps? comps with
+    | some inc, [hd, fs], some (b2, ts) =>
+      match (words hd).mapM String.toNat? with
+      | some [num, m, n] =>
+        match parseForces? (num * m * n) fs with
+        | some fs =>
+          let b : BayLoads ℚ := ⟨num, m, n, fs, b2, ts⟩
+          match bayCalcFext inc b with
+          | .ok v => "ok " ++ " ".intercalate ((bayLayout b).map showPlaced) ++ " | " ++ showQs v
+          | .error e => "raise " ++ e
+        | none => "err force-shape"
+      | _ => "err parse"
+    | _, _, _ => "err parse"
+  | _ => "err parse"
+
+def parseAsmPanel? (s : String) : Option (AsmPanel ℚ) :=
+  match hashes s with
+  | [hd, fs, fi] =>
+    match (words hd).mapM String.toNat? with
+    | some [num, m, n] =>
+      match parseForces? (num * m * n) fs, parseForces? (num * m * n) fi with
+      | some fs, some fi => some ⟨num, m, n, fs, fi⟩
+      | _, _ => none
+    | _ => none
+  | _ => none
+
+def asmfext (rest : String) : String :=
+  match fields rest with
+  | inc :: panels =>
+    match parseInc? inc, panels.mapM parseAsmPanel? with
+    | some inc, some ps =>
+      "ok " ++ " ".intercalate ((asmLoadsFrom ps 0).map fun q => s!"{q.col0}:{q.n}") ++ " | " ++
+        showQs ((List.range (asmSize ps)).map (asmCalcFext ps inc))
+    | _, _ => "err parse"
+  | _ => "err parse"
+
+def showCall : StaticCall → String
+  | .calcFext incPassed => if incPassed then "calc_fext(inc)" else "calc_fext()"
+  | .calcK0 => "calc_k0()"
+  | .solve => "solve()"
+
+def exc? (s : String) : Option String := if s = "-" then none else some s
+
+def static (rest : String) : String :=
+  match fields rest with
+  | [hd, ks, fs, ps] =>
+    match words hd, parseQss? ks, parseQs? fs, parseQs? ps with
+    | [n, last, ef, ek], some trip, some fv, some px =>
+      match n.toNat? with
+      | some n =>
+        let arr : Array ℚ := trip.foldl (fun a t =>
+          match t with
+          | [i, j, v] => a.modify (i.num.toNat * n + j.num.toNat) (· + v)
+          | _ => a) (Array.replicate (n * n) 0)
+        let k0 : ℕ → ℕ → ℚ := fun i j => if i < n ∧ j < n then arr.getD (i * n + j) 0 else 0
+        let f : ℕ → ℚ := fun k => fv.getD k 0
+        let cb : Callables ℚ :=
+          ⟨n, fun _ => match exc? ef with | some e => .error e | none => .ok f,
+           match exc? ek with | some e => .error e | none => .ok k0⟩
+        let sp : Spsolve ℚ := fun _ _ _ s => px.getD s 0
+        let out := analysisStatic cb sp ⟨[], [], last⟩
+        let used := usedCols k0 n
+        let rng := List.range used.length
+        "ok " ++ " ".intercalate (out.calls.map showCall) ++ " | " ++ " ".intercalate (used.map toString) ++ " | " ++
+          showQs (rng.flatMap fun r => rng.map fun s => reducedMat k0 used r s) ++ " | " ++
+          showQs (rng.map (reducedVec f used)) ++ " | " ++ showQs out.post.increments ++ " | " ++
+          (match out.post.cs with
+            | [c] => showQs ((List.range n).map c)
+            | _ => "-") ++ " | " ++ out.post.lastAnalysis ++ " | " ++ (out.raised.getD "-")
+      | none => "err parse"
+    | _, _, _, _ => "err parse"
+  | _ => "err parse"
 
 def handle (op : String) (rest : String) : String :=
   match op with
@@ -41,6 +176,9 @@ def handle (op : String) (rest : String) : String :=
         "ok " ++ showQs ((List.range size).map fun k => scatter used (fun s => px.getD s 0) k)
       | _, _, _ => "err parse"
     | _ => "err parse"
+  | "bayfext" => bayfext rest
+  | "asmfext" => asmfext rest
+  | "static" => static rest
   | _ => "err unknown-op"
 
 end Compmech.Drv.C07
